@@ -4067,9 +4067,15 @@ class PartitionTreeBuilder:
                 seed=rng,
                 **partition_opts,
             )
+            groups = separate(leaves, membership)
+            if len(groups) == len(leaves):
+                # the partitioner didn't merge anything: rather than looping
+                # forever on the same problem, contract the rest directly
+                break
+
             leaves = [
                 tree.contract_nodes(group, check=check, optimize=sub_optimize)
-                for group in separate(leaves, membership)
+                for group in groups
             ]
 
         if len(leaves) > 1:
